@@ -122,8 +122,77 @@ func main() {
 					}
 				}
 				stack = append(stack, name)
+				var recvObj types.Object
+				recvPtr := false
+				if ok && fd.Recv != nil && len(fd.Recv.List) > 0 && len(fd.Recv.List[0].Names) > 0 {
+					recvObj = p.TypesInfo.Defs[fd.Recv.List[0].Names[0]]
+					if recvObj != nil {
+						_, recvPtr = recvObj.Type().Underlying().(*types.Pointer)
+					}
+				}
+				// persistentWrite: does assigning to lhs change memory that outlives the call
+				// (a field reached through the receiver, or a package-level variable)?
+				persistentWrite := func(lhs ast.Expr) (string, bool) {
+					through := false // passed a pointer dereference, map or slice element on the way down
+					e := lhs
+					depth := 0
+					for {
+						switch v := e.(type) {
+						case *ast.ParenExpr:
+							e = v.X
+							continue
+						case *ast.StarExpr:
+							through = true
+							e = v.X
+							depth++
+							continue
+						case *ast.IndexExpr:
+							if t := p.TypesInfo.TypeOf(v.X); t != nil {
+								switch t.Underlying().(type) {
+								case *types.Map, *types.Slice, *types.Pointer:
+									through = true
+								}
+							}
+							e = v.X
+							depth++
+							continue
+						case *ast.SelectorExpr:
+							if t := p.TypesInfo.TypeOf(v.X); t != nil {
+								if _, isPtr := t.Underlying().(*types.Pointer); isPtr {
+									through = true
+								}
+							}
+							e = v.X
+							depth++
+							continue
+						case *ast.Ident:
+							obj := p.TypesInfo.Uses[v]
+							if obj == nil {
+								return "", false
+							}
+							if recvObj != nil && obj == recvObj && depth > 0 && (recvPtr || through) {
+								return "receiver-state-write", true
+							}
+							if vr, isVar := obj.(*types.Var); isVar && vr.Parent() == p.Types.Scope() && name != "init" {
+								return "package-var-write", true
+							}
+							return "", false
+						}
+						return "", false
+					}
+				}
 				ast.Inspect(d, func(n ast.Node) bool {
 					switch x := n.(type) {
+					case *ast.AssignStmt:
+						for _, l := range x.Lhs {
+							if k, yes := persistentWrite(l); yes {
+								add(x, k, types.ExprString(l))
+							}
+						}
+					case *ast.IncDecStmt:
+						if k, yes := persistentWrite(x.X); yes {
+							add(x, k, types.ExprString(x.X))
+						}
 					case *ast.RangeStmt:
 						if t := p.TypesInfo.TypeOf(x.X); t != nil {
 							if _, isMap := t.Underlying().(*types.Map); isMap {
